@@ -266,6 +266,34 @@ class KwargsLearner:
         self.t += 1
 
 
+class MaybeScoreLearner:
+    """instances of ONE class that differ in what they can do: `score` exists only when the instance was built with
+    can_score=True (resolved through __getattr__, so the class itself never has the attribute)"""
+
+    def __init__(self, tag, can_score):
+        self.tag, self.can_score, self.n = tag, bool(can_score), 0
+
+    def __getattr__(self, name):
+        if name == "score" and self.__dict__.get("can_score"):
+            return self._score
+        raise AttributeError("'MaybeScoreLearner' object has no attribute '%s'" % name)
+
+    @property
+    def params(self):
+        return {"family": "MaybeScoreLearner", "tag": self.tag, "can_score": self.can_score}
+
+    def _score(self, context, actions, action):
+        _rows_only(context, actions)
+        return 1 / len(actions)
+
+    def predict(self, context, actions):
+        _rows_only(context, actions)
+        return actions[(self.n + self.tag) % len(actions)], 1 / len(actions)
+
+    def learn(self, context, action, reward, probability):
+        self.n += 1
+
+
 class NoCopyLearner:
     """stateful learner that keeps its schedule as a generator: it can be used, but neither deep-copied nor pickled"""
 
